@@ -1,7 +1,7 @@
 SPECIFICATION Spec
 CONSTANTS
   Objects = {"o1","o2","o3"}
-  Contents = {"shallow","badscan","badvalue","usesT","typeT","orset","rich","typeU","blank","typeC","rootRef","typeObj"}
+  Contents = {"shallow","badscan","badvalue","usesT","typeT","orset","rich","typeU","blank","typeC"}
   Ops = {"Check","Example","GetAST","OpenAPI"}
   Registers = TRUE
   Sharing = FALSE
